@@ -11,12 +11,6 @@ uses) so is the reported pair.
 -/
 namespace WhVerif.C11
 
-/-- entries of `c` listed in the order `τ` -/
-def relabel (τ : Perm) (c : List Nat) : List Nat := τ.map (c.getD · 0)
-
-/-- haplotypes of `ph` listed in the order `τ` -/
-def relabelHaps (τ : Perm) (ph : List Hap) : List Hap := τ.map (ph.getD · [])
-
 /-- `ι` is the inverse of `τ` on `{0..p-1}` -/
 def IsInv (p : Nat) (τ ι : Perm) : Prop :=
   τ.length = p ∧ ι.length = p ∧
